@@ -411,6 +411,7 @@ package data
 //@ induct [C01.lemma-run-first] (base int, step int, os int) z : runaddr(base, 0, step, os) == base
 //@ induct [C01.lemma-run-injective] (base int, j1 int, j2 int, step int, os int) z : implies(step >= 1 && os >= 1 && j1 != j2, runaddr(base, j1, step, os) != runaddr(base, j2, step, os))
 //@ func (*nd{t}).Apply(nd, loc, dim, step, vals)
+//@   simplify entry-ids
 //@   safety C01
 //@   callsite Set instantiate C01.lemma-idot-upd(old(seq(loc)), seq(loc), seq(nd.OffsetStep), dim, len(loc))
 //@   uses C01.lemma-run-injective, C01.lemma-run-unit, C01.lemma-run-first
